@@ -11,6 +11,7 @@ Paths are enumerated by re-execution with a decision log; every obligation is re
 with its path condition and discharged by z3 (unsat of pc & not goal), cvc5 as second
 back end for `unknown`.  Python integers are mathematical; float literals are rationals (A1).
 """
+import os
 import itertools
 import time
 from fractions import Fraction
@@ -869,7 +870,7 @@ def run_block_status(stmts, glb, loc, filename='<extracted>'):
     return loc.pop('_status')
 
 
-def raised_in_code_under_test(exc, roots=('/repo/',)):
+def raised_in_code_under_test(exc, roots=(os.environ.get('VERIF_REPO', '/repo').rstrip('/') + '/',)):
     """True if the innermost frame of the exception lies in the code under test: then it is the code that raised.
     Otherwise a library or the symbolic shim choked on a symbolic object -- a limit of the tool, never a verdict."""
     if any(mk in str(exc) for mk in TOOL_LIMIT_MARKERS):
